@@ -31,9 +31,12 @@ THEOREMS = [
     "Signature.shownName_spec",
 ]
 PARTIAL: Dict[str, str] = {}
-RULE = ("FIRST a deterministic corpus (the shapes of all five seeded C14 changes: aliased @overload, annotated positional-only "
+RULE = ("FIRST a deterministic corpus (the shapes of the seeded C14 changes: aliased @overload, annotated positional-only "
         "parameters, a string annotation shared under an operator, right operands of equal precedence, Literal reached through "
-        "a module alias; direct oracle only) and the format_signature fallbacks. Then exhaustive: every sequence of <=4 "
+        "a module alias, equal constants in one module, operator expressions as subscripted/called operands; direct oracle only), "
+        "every operator expression (unary, binary, boolean, comparison, conditional, lambda, walrus) as the operand of a subscript / "
+        "call / attribute access in default, annotation, string annotation, keyword-only default and return position (oracle "
+        "only), and the format_signature fallbacks. Then exhaustive: every sequence of <=4 "
         "(quick: <=3) parameter items over {name, *name, **name} x with/without annotation x with/without default, with `/` "
         "and bare `*` placed at every position, written as `def f(<items>) [-> r | -> None]: pass`; those ast.parse accepts go "
         "through the real pipeline (System, systemBuilder, addModuleString, buildModules, Function.signature, "
@@ -1261,6 +1264,11 @@ def run_fallback(ctx: Ctx) -> None:
 # ------------------------------------------------------------------ deterministic corpus (runs first)
 
 CORPUS = [
+    ("seeded-C14-r4-2-operator-expression-as-subscripted-or-called-operand",
+     "def first(name=(NAMES + EXTRA)[0], rest=(NAMES + EXTRA)[1:], sep=(PREFIX * 2)[:-1]): ...\n"
+     "def pick(factory=(fallback or dict)(), neg=(-offset)[0], *, shout=(PREFIX + '%s')(1), flag=(not ready)()): ...\n"
+     "def typed(x: (A | B)[int] = None, y: \"(A | B)[str]\" = None) -> (A | B)[None]: ...\n"
+     "def controls(a=f(x + y, k=c | d), b=x[i + 1], c=x[-1], d=f(-1), e=f(*(p or q), **(r or s)), g=(x + y) * z): ...\n"),
     ("seeded-C14-r3-1-equal-constants-in-one-module",
      "def first(verbose=False, scale=1.0):\n    pass\ndef connect(host, retries=0, workers=1, strict=True, *, backoff=0.0, debug=False):\n    pass\n"
      "class K:\n    def m(self, a=0, b=False, c=0.0, d=-0.0, e=0j, f=1, g=True, h=1.0): ...\n    def n(self, a=True, b=1, c='', d=b'', e='a', f=b'a', g=None, h=0): ...\n"),
@@ -1353,6 +1361,41 @@ def decorator_is_overload_in(tree: ast.Module, class_body: Optional[List[ast.stm
     return decorator_is_overload(env_src, True, dotted)
 
 
+OPERATOR_EXPRS = {"unary-": "-a", "unary~": "~a", "not": "not a", "bin+": "a + b", "bin-": "a - b", "bin*": "a * b", "bin|": "a | b",
+                  "bin**": "a ** b", "bin%": "a % b", "bin<<": "a << b", "or": "a or b", "and": "a and b", "cmp<": "a < b",
+                  "cmp-in": "a in b", "cmp-is-not": "a is not b", "cmp-chain": "a < b < c", "ifexp": "a if c else b",
+                  "lambda": "lambda: a", "lambda-arg": "lambda q: q", "walrus": "(q := a)"}
+OPERAND_CONTEXTS = {"subscript": "({e})[0]", "slice": "({e})[1:]", "call": "({e})()", "call-args": "({e})(1, k=2)",
+                    "attribute": "({e}).x", "method-call": "({e}).m()", "subscript-twice": "({e})[0][1]",
+                    "inside-call-arg": "g(({e})[0], k=({e})())", "inside-list": "[({e}).x, ({e})[0]]"}
+
+
+def run_operand_shapes(ctx: Ctx) -> None:
+    """operator expressions (unary, binary, boolean, comparison, conditional, lambda, walrus) as the operand that is
+    subscripted / called / attribute-accessed, as default, annotation, string annotation and return annotation:
+    the grouping parentheses must survive (read-back oracle only; the expression text itself is C15's model)"""
+    lines: List[str] = []
+    n = 0
+    for ok, e in OPERATOR_EXPRS.items():
+        for ck, c in OPERAND_CONTEXTS.items():
+            expr = c.format(e=e)
+            for where, sig in (("default", "p=%s" % expr), ("annotation", "p: %s" % expr), ("string-annotation", "p: %r" % expr),
+                               ("kwonly-default", "*, p: int = %s" % expr), ("return", ") -> (%s" % expr)):
+                src = "def f%d(%s): ..." % (n, sig)
+                try:
+                    ast.parse(src)
+                except SyntaxError:
+                    ctx.count("operand-shapes:not-python")
+                    continue
+                lines.append(src)
+                ctx.count("operand-shapes:operator:" + ok)
+                ctx.count("operand-shapes:context:" + ck)
+                ctx.count("operand-shapes:where:" + where)
+                n += 1
+    for start in range(0, len(lines), 200):
+        check_module_by_oracle(ctx, "operand-shapes", "\n".join(lines[start:start + 200]) + "\n", stream="operand-shapes")
+
+
 def run_corpus(ctx: Ctx) -> None:
     total = 0
     for tag, src in CORPUS:
@@ -1415,6 +1458,7 @@ def run(ctx: Ctx) -> None:
     rng = ctx.rng
     # 0. deterministic corpus: the shapes of every seeded change, independent of the seed, first
     run_corpus(ctx)
+    run_operand_shapes(ctx)
     run_fallback(ctx)
     set_env_from_source(MODULE_HEADER)
     nmax = 3 if ctx.quick else 4
